@@ -10,3 +10,4 @@ import TFV.Properties.Src.SoftmaxKernel
 #print axioms TFV.Properties.Src.SoftmaxKernel.C12_src_max_axis
 #print axioms TFV.Properties.Src.SoftmaxKernel.C12_src_softmax_numba
 #print axioms TFV.Properties.Src.SoftmaxKernel.C12_src_softmax_rows
+#print axioms TFV.Properties.Src.SoftmaxKernel.C12_src_multiactivation2d
